@@ -67,7 +67,8 @@ def g_text(rng):
     return s
 
 FIXED = ["", "c", "c4\n^8", "c4\n\n^", "c4\n d", "l8 [ 3 cde] g", "[ 3 c : d] e", "{[ 3 c]}4", "Sub{[ 3 c]}", "'ceg r' d", "/**/l4 c d e", "c >/**/ d e", "l4 c\n/**/ d /* second */ e",
-         "c4\n// comment\n^8. d", "r\n\n\n^^ c", "! ! ! ! ! ! ! ! ! ! ! ! ! ! ! ! ! ! ! ! ! ! ! ! ! ! ! ! ! ! ! ! ! c", "{c\nd e}4 !", "Sub{ c\n ! }\n !", "c 4 d | 8", "n60 , 4", "v ( 10 , 20 )", "o=5 q=(80) t=-2"]
+         "c4\n// comment\n^8. d", "r\n\n\n^^ c", "! ! ! ! ! ! ! ! ! ! ! ! ! ! ! ! ! ! ! ! ! ! ! ! ! ! ! ! ! ! ! ! ! c", "{c\nd e}4 !", "Sub{ c\n ! }\n !", "c 4 d | 8", "n60 , 4", "v ( 10 , 20 )", "o=5 q=(80) t=-2",
+         "c End d", "c END\nd", "Endx c", "c ENDING d e", "c End_ d", "End1 c", "c d End", "Sub{c End d} e"]
 
 def lex_stream(tier, rng, P, only=None, cases=None, extra_texts=()):
     big = tier == "thorough"
